@@ -124,7 +124,12 @@ def analyse(recs):
         if rec['status'] != 'done' or not rec['result']:
             hangs.append(rec)
             continue
-        msg, k = oracle(rec)
+        if str(rec['scenario'].get('mode', '')).startswith('kept:'):
+            # the init / exit timeouts in force on kept-alive workers are the CURRENT call's (shared with C08)
+            from checks import c08
+            msg, k = c08.oracle(rec), 1
+        else:
+            msg, k = oracle(rec)
         n += k
         if msg:
             bad.append((rec, msg))
@@ -137,6 +142,9 @@ def run(ctx):
     proof = build_props('C10', GROUPS)
     sms = ['fork', 'fork', 'threading', 'forkserver', 'spawn'] if ctx['tier'] == 'quick' else S.START_METHODS
     scens = [fix_shared_tracking(S.gen_history(rng, k, ctx['tier'], sms)) for k in range(44 if ctx['tier'] == 'quick' else 400)]
+    from checks import c08
+    c08.CAL.update(runner.calibrate())
+    scens += [c08.gen_late(rng, k, sms) for k in range(4 if ctx['tier'] == 'quick' else 16)]
     recs = runner.run_many(scens, 'c10', jobs=10)
     bad, hangs, checked = analyse(recs)
     out_v = []
